@@ -1,1 +1,139 @@
-import Sc3Verif.C18.Model
+/-
+C18 — Incoming messages reach exactly the responders that should fire.
+
+Property theorems only (helper lemmas in `Lemmas.lean`, specification in `Spec.lean`).
+-/
+import Sc3Verif.C18.Lemmas
+namespace Sc3Verif.C18
+
+open Sc3Verif.C06 (Bytes decodePacket)
+
+/-! ## (i) address pattern matching -/
+
+/-- the derivative matcher decides the inductively defined language, over the WHOLE string -/
+theorem fullmatch_iff_language (r : R) (s : Str) : r.fullmatch s = true ↔ Matches r s :=
+  fullmatch_iff r s
+
+/-- MAIN (matching): `osc_rematch_pattern(pattern, address)` is `True` exactly when the pattern text,
+    rewritten by the `_rewrite_symbols` table and read as a regular expression, has the ENTIRE
+    address in its language (repair D2: no prefix matches); it never raises (repair D-C18-2). -/
+theorem match_iff_language (pattern address : Str) :
+    (oscMatch pattern address = some true ↔ ∃ r, reParse (rewrite pattern) = .ok r ∧ Matches r address) ∧
+    (∃ b, oscMatch pattern address = some b) := by
+  have hf : useFullmatch = true := rfl
+  have hc : catchesReError = true := rfl
+  unfold oscMatch
+  cases h : reParse (rewrite pattern) with
+  | ok r =>
+    simp only [hf, if_true]
+    refine ⟨?_, ⟨_, rfl⟩⟩
+    constructor
+    · intro hm
+      refine ⟨r, rfl, (fullmatch_iff r address).mp ?_⟩
+      simpa using hm
+    · rintro ⟨r', hr, hm⟩
+      cases hr
+      simp [(fullmatch_iff r address).mpr hm]
+  | error e =>
+    simp only [hc, if_true]
+    refine ⟨?_, ⟨_, rfl⟩⟩
+    constructor
+    · intro hm; cases hm
+    · rintro ⟨r', hr, _⟩; cases hr
+
+/-- a malformed pattern (the regular expression parser rejects it) matches nothing -/
+theorem malformed_matches_nothing (pattern address : Str) (e : ReErr)
+    (h : reParse (rewrite pattern) = .error e) : oscMatch pattern address = some false := by
+  have hc : catchesReError = true := rfl
+  simp [oscMatch, h, hc]
+
+/-- a pattern without special characters matches only itself: in particular no address of which it
+    is a proper prefix (`/foo` does not fire a responder at `/foobar`), none that is shorter, none
+    that differs in one character -/
+theorem literal_matches_only_itself (pattern address : Str) (h : ∀ c ∈ pattern, plainChar c = true) :
+    oscMatch pattern address = some (decide (address = pattern)) := by
+  have hf : useFullmatch = true := rfl
+  have h1 : ∀ c ∈ pattern, rewriteTable.all (fun p => p.1.head? != some c) = true := by
+    intro c hc; have := h c hc; simp only [plainChar, Bool.and_eq_true] at this; exact this.1
+  have h2 : ∀ c ∈ pattern, parserSpecial c = false := by
+    intro c hc; have := h c hc; simp only [plainChar, Bool.and_eq_true] at this; simpa using this.2
+  unfold oscMatch rewrite
+  rw [rewriteGo_plain rewriteTable pattern h1, reParse_plain pattern h2]
+  simp only [hf, if_true]
+  congr 1
+  by_cases he : address = pattern
+  · simp [he, (fullmatch_iff _ _).mpr ((matches_seqOf_chr pattern pattern).mpr rfl)]
+  · have : ¬ (seqOf (pattern.map R.chr)).fullmatch address = true := fun hm =>
+      he ((matches_seqOf_chr pattern address).mp ((fullmatch_iff _ _).mp hm))
+    simp [he, this]
+
+/-! ## (iii) hostile datagrams -/
+
+/-- a datagram the decoder rejects invokes nothing and leaves the receiver exactly as it was (so the
+    next datagram is processed as if the bad one had never arrived) -/
+theorem malformed_no_dispatch (env : Env) (cfg : RecvCfg) (s : St) (data : Bytes) (sender : Sender)
+    (e : Sc3Verif.C06.DErr) (h : decodePacket data = .error e) :
+    handleRequest env cfg s data sender = (s, []) := by
+  simp [handleRequest, h]
+
+/-- the decoder is total: every byte string is answered with messages or one of the exception
+    classes (the bundle loop needs no fuel since the element size is validated, repair D1) -/
+theorem decoder_total (data : Bytes) :
+    (∃ ms, decodePacket data = .ok ms) ∨ (∃ e, decodePacket data = .error e) := by
+  cases decodePacket data with
+  | ok ms => exact Or.inl ⟨ms, rfl⟩
+  | error e => exact Or.inr ⟨e, rfl⟩
+
+/-- the D1 datagram `#bundle\0 + timetag + int32(-4)` is rejected (it used to loop forever) -/
+theorem negative_element_size_rejected :
+    decodePacket [0x23, 0x62, 0x75, 0x6E, 0x64, 0x6C, 0x65, 0, 0, 0, 0, 0, 0, 0, 0, 1, 0xFF, 0xFF, 0xFF, 0xFC]
+      = .error .bundleParse := by
+  unfold decodePacket
+  simp only [Sc3Verif.C06.isBundle, Sc3Verif.C06.bundlePrefix, Sc3Verif.C06.parseBundle]
+  rw [Sc3Verif.C06.parseElems]
+  simp [Sc3Verif.C06.fromBE, Sc3Verif.C06.toInt32]
+  rfl
+
+/-! ## (iv) registries -/
+
+/-- `run` executes exactly the actions registered at that moment, each once, in registration order,
+    with their current arguments (actions that leave the registry alone) -/
+theorem registry_runs_current (r : SysReg) (hnd : (r.map (·.1)).Nodup) :
+    sysRun (fun _ => []) r = (r, r) := sysRun_plain r hnd
+
+/-- ... and whatever the actions do to the registry while it runs, only actions registered when `run`
+    started are executed, in registration order -/
+theorem registry_runs_subsequence (beh : Nat → List SysOp) (r : SysReg) :
+    ((sysRun beh r).2.map (·.1)).Sublist (r.map (·.1)) := sysRun_subsequence beh r
+
+/-- re-adding keeps the position (and updates the arguments), adding a new action appends it -/
+theorem registry_add_order (a args : Nat) (r : SysReg) :
+    (sysAdd a args r).map (·.1) = if (r.map (·.1)).contains a then r.map (·.1) else r.map (·.1) ++ [a] :=
+  sysAdd_keys a args r
+
+theorem registry_remove_removes (r : SysReg) (a : Nat) : a ∉ (sysApply r (.remove a)).map (·.1) :=
+  sys_remove_removes r a
+
+/-- `ServerAction.remove` really removes (repair D4) -/
+theorem server_action_remove_removes (r : SrvReg) (srv a : Nat) :
+    a ∉ (srvLookup srv (srvRemove srv a r)).map (·.1) := srvRemove_removes r srv a
+
+/-- `ServerAction.run(server)`: the server's actions, then the `'default'` ones for the default
+    server, then the `'all'` ones — each group in registration order -/
+theorem server_action_run (r : SrvReg) (srv : Nat) (isDefault : Bool) :
+    srvRun r srv isDefault = srvLookup srv r ++ (if isDefault then srvLookup 0 r else []) ++ srvLookup 1 r := rfl
+
+theorem notification_notify (r : NotReg) :
+    (notNotify r).2 = r.map (fun p => (p.2.1, p.1)) ∧ (notNotify r).1 = r.filter (fun p => !p.2.2) :=
+  notNotify_spec r
+
+/-! ## Non-vacuity -/
+
+-- '/foo' does not match '/foobar'; '/f?o*' matches '/foobar'; '/[' is malformed and matches nothing
+example : oscMatch [47, 102, 111, 111] [47, 102, 111, 111, 98, 97, 114] = some false := by decide
+example : oscMatch [47, 102, 63, 111, 42] [47, 102, 111, 111, 98, 97, 114] = some true := by decide
+example : oscMatch [47, 91] [47, 91] = some false := by decide
+example : oscMatch [47, 123, 97, 44, 98, 99, 125, 91, 33, 120, 45, 122, 93] [47, 98, 99, 113] = some true := by decide
+example : ∀ c ∈ [47, 102, 111, 111], plainChar c = true := by decide
+
+end Sc3Verif.C18
